@@ -193,10 +193,29 @@ Proof.
 Qed.
 
 
+(* the tabulated values are GLOBAL optima: no input does better (minimisation; h1 is maximised, tabulated value 2).
+   plane is linear and unbounded: its tabulated point is not a minimum and no such bound exists. *)
+Theorem C20_tabulated_values_are_global_bounds : forall x : list R,
+  lower_bounded (bm_sphere x) 0 /\ lower_bounded (bm_cigar x) 0 /\ lower_bounded (bm_rosenbrock x) 0 /\
+  lower_bounded (bm_himmelblau x) 0 /\ lower_bounded (bm_rastrigin x) 0 /\ lower_bounded (bm_rastrigin_skew x) 0 /\
+  lower_bounded (bm_rastrigin_scaled x) 0 /\ lower_bounded (bm_bohachevsky x) 0 /\ lower_bounded (bm_schaffer x) 0 /\
+  lower_bounded (bm_griewank x) 0 /\ ((1 <= length x)%nat -> lower_bounded (bm_ackley x) 0) /\
+  (exists y, bm_h1 x = [y] /\ y <= 2).
+Proof.
+  intro x.
+  rewrite ge_sphere, ge_cigar, ge_rosenbrock, ge_himmelblau, ge_rastrigin, ge_rastrigin_skew, ge_rastrigin_scaled,
+    ge_bohachevsky, ge_schaffer, ge_griewank, ge_ackley, ge_h1.
+  repeat apply conj.
+  - apply min_sphere. - apply min_cigar. - apply min_rosenbrock. - apply min_himmelblau. - apply min_rastrigin.
+  - apply min_rastrigin_skew. - apply min_rastrigin_scaled. - apply min_bohachevsky. - apply min_schaffer.
+  - apply min_griewank. - apply min_ackley. - apply max_h1.
+Qed.
+
+
 (* section 2, exact part -- conjunction of the theorems above; carries the Print Assumptions of this group
    (one call per group: each call costs about 1.7 s) *)
-Theorem C20_sec2_optima_exact : ltac:(let t := type of (conj C20_optima_exact C20_himmelblau_decimal_minima) in exact t).
-Proof. exact (conj C20_optima_exact C20_himmelblau_decimal_minima). Qed.
+Theorem C20_sec2_optima_exact : ltac:(let t := type of (conj C20_optima_exact (conj C20_himmelblau_decimal_minima C20_tabulated_values_are_global_bounds)) in exact t).
+Proof. exact (conj C20_optima_exact (conj C20_himmelblau_decimal_minima C20_tabulated_values_are_global_bounds)). Qed.
 Print Assumptions C20_sec2_optima_exact.
 
 (* Schwefel at x_i = 420.96874636: |f| <= 1e-4 N;  h1 at (8.6998, 6.7665): |f - 2| <= 1e-3  (interval arithmetic) *)
@@ -245,10 +264,15 @@ Theorem C20_zdt1_front : forall (x1 : R) n, (1 <= n)%nat -> bm_zdt1 (x1 :: repea
 Proof. intros. rewrite ge_zdt1. apply zdt1_front. assumption. Qed.
 
 
+Theorem C20_dtlz2_front_unit : forall (x : list R) M, (1 <= M)%Z -> (M - 1 <= zlen x)%Z ->
+  Forall (fun v => v = 1 / 2) (dtlz_xm x M) -> enorm (bm_dtlz2 x M) = 1.
+Proof. intros x M H1 H2. rewrite ge_dtlz2 by assumption. apply dtlz2_front_unit. Qed.
+
+
 (* section 3 -- conjunction of the theorems above; carries the Print Assumptions of this group
    (one call per group: each call costs about 1.7 s) *)
-Theorem C20_sec3_fronts : ltac:(let t := type of (conj C20_dtlz1_sum (conj C20_dtlz2_6_norm (conj C20_zdt_f2 C20_zdt1_front))) in exact t).
-Proof. exact (conj C20_dtlz1_sum (conj C20_dtlz2_6_norm (conj C20_zdt_f2 C20_zdt1_front))). Qed.
+Theorem C20_sec3_fronts : ltac:(let t := type of (conj C20_dtlz1_sum (conj C20_dtlz2_6_norm (conj C20_zdt_f2 (conj C20_zdt1_front C20_dtlz2_front_unit)))) in exact t).
+Proof. exact (conj C20_dtlz1_sum (conj C20_dtlz2_6_norm (conj C20_zdt_f2 (conj C20_zdt1_front C20_dtlz2_front_unit)))). Qed.
 Print Assumptions C20_sec3_fronts.
 
 (* ================================================================================================ *)
